@@ -96,7 +96,7 @@ PROPS = {
                       'checksum), so a change made consistently to writer and reader still fails. Builder::compile writes a node only at '
                       'count(), never writes the empty-final node or a resident node, every transition target is an earlier emitted address '
                       'or 0; nodes tile the body because graph(body) is defined by parsing it backwards node by node.',
-        'level_note': 'The common-input tables are an assumed contract (Kani K-tables, complete). The loop that fills the 256-entry index is verified in place (rule R21: enumerate as a counter).',
+        'level_note': 'The common-input tables are an assumed contract (Kani K-tables, complete; the table and the rank + 1 field mapping are pinned to the format\'s). The loop that fills the 256-entry index is verified in place (rule R21: enumerate as a counter). The footer checksum is the format\'s masked CRC-32C: unit crc and the K-crc harnesses belong to this property too. The bit-level setters / getters are also stated as complete CBMC harnesses (K-bits), which decide when Verus cannot.',
         'explanation': '',
         'assumptions': [],
     },
